@@ -58,4 +58,59 @@ example : wfTree Fmt.exTree = true := Fmt.exTree_wf
 example : sem (parseRunes (format Fmt.exTree)).tree = sem Fmt.exTree := by
   rw [print_parse _ Fmt.exTree_wf]; exact sem_norm _
 
+/-! ## any number of formattings
+
+The statement above is about ONE formatting.  A user formats a file many times (an editor hook, a CI job): `fmtB` is one
+`spok --fmt` on bytes, `fmtN n` is `n` of them in a row.  The tree read back after one formatting is exactly `norm t`; a
+second formatting writes the same bytes; hence after any number of formattings the file parses and means what it meant. -/
+
+/-- one formatting of a byte string, as `spok --fmt` does it -/
+def fmtB (bytes : List UInt8) : List UInt8 := flat (format (parse bytes).tree)
+
+/-- `n` formattings in a row -/
+def fmtN : Nat → List UInt8 → List UInt8
+  | 0, b => b
+  | n + 1, b => fmtN n (fmtB b)
+
+/-- the tree read back from the formatted bytes is exactly the normalised tree: the precise statement of what one
+    formatting does to the structure -/
+theorem fmt_tree (bytes : List UInt8) (hp : (parse bytes).fail = none) :
+    parse (fmtB bytes) = ⟨norm (parse bytes).tree, none⟩ := by
+  have hw : wfTree (parse bytes).tree = true := parse_wf (decodeAll bytes) hp
+  unfold fmtB
+  rw [format_bytes bytes hp, print_parse _ hw]
+
+/-- a second formatting writes the bytes of the first -/
+theorem fmtB_fmtB (bytes : List UInt8) (hp : (parse bytes).fail = none) : fmtB (fmtB bytes) = fmtB bytes := by
+  show flat (format (parse (fmtB bytes)).tree) = _
+  rw [fmt_tree bytes hp]
+  show flat (format (norm (parse bytes).tree)) = flat (format (parse bytes).tree)
+  rw [Spok.format_norm]
+
+/-- after the first formatting, any number of further ones parse and change nothing -/
+theorem fmtN_fmtB (bytes : List UInt8) (hp : (parse bytes).fail = none) (n : Nat) :
+    (parse (fmtN n (fmtB bytes))).fail = none ∧ fmtN n (fmtB bytes) = fmtB bytes := by
+  induction n with
+  | zero => exact ⟨by show (parse (fmtB bytes)).fail = none; rw [fmt_tree bytes hp], rfl⟩
+  | succ n ih =>
+    show (parse (fmtN n (fmtB (fmtB bytes)))).fail = none ∧ fmtN n (fmtB (fmtB bytes)) = fmtB bytes
+    rw [fmtB_fmtB bytes hp]; exact ih
+
+/-- the tree read back after any number of formattings is the normalised tree of the original -/
+theorem fmtN_tree (bytes : List UInt8) (hp : (parse bytes).fail = none) (n : Nat) :
+    parse (fmtN n (fmtB bytes)) = ⟨norm (parse bytes).tree, none⟩ := by
+  rw [(fmtN_fmtB bytes hp n).2]; exact fmt_tree bytes hp
+
+/-- **C07, any number of times**: for every input that parses and every `n`, the file after `1 + n` formattings parses
+    and defines the same variables and tasks as the original. -/
+theorem C07_iter (bytes : List UInt8) (hp : (parse bytes).fail = none) (n : Nat) :
+    (parse (fmtN n (fmtB bytes))).fail = none ∧
+    sem (parse (fmtN n (fmtB bytes))).tree = sem (parse bytes).tree := by
+  rw [fmtN_tree bytes hp n]; exact ⟨rfl, sem_norm _⟩
+
+/-- non-vacuity of the iterated statement: three formattings of the example tree's text -/
+example : (parse (flat (format Fmt.exTree))).fail = none →
+    sem (parse (fmtN 2 (fmtB (flat (format Fmt.exTree))))).tree = sem (parse (flat (format Fmt.exTree))).tree :=
+  fun h => (C07_iter _ h 2).2
+
 end Spok.Props.C07
